@@ -139,10 +139,15 @@ func cmdCheck(args []string) int {
 		}
 	}
 	x := &Explorer{P: P, roots: roots, workers: *workers, solverKind: *solver, timeoutMs: to, verbose: *verbose,
-		maxWitnessPerRoot: 2, stopOnFail: false}
-	if *budget > 0 {
-		x.deadline = time.Now().Add(time.Duration(*budget) * time.Second)
+		maxWitnessPerRoot: 2, stopOnFail: true}
+	if *budget == 0 {
+		// default exploration budgets; exhausting one is reported as INCONCLUSIVE, never as success
+		*budget = 1500
+		if *tier == "thorough" {
+			*budget = 6 * 3600
+		}
 	}
+	x.deadline = time.Now().Add(time.Duration(*budget) * time.Second)
 	x.Run()
 	exploreS := time.Since(start).Seconds()
 
